@@ -110,28 +110,36 @@ Around(e) == UNION {{b - 10, b - 1, b, b + 1, b + 10} : b \in BoundsOf(e)}
 Args(e) == {[v |-> x, form |-> "dec"] : x \in Around(e)}
            \cup {[v |-> x, form |-> "int"] : x \in {y \in Around(e) : y % 10 = 0}}
 
-Params == IF Mode \in {"gen", "laws"} THEN ndJsonDeserialize(IOEnv.PARAMS)[1] ELSE <<>>
+Params == ndJsonDeserialize(IOEnv.PARAMS)[1]
 ToSetOf(s) == {s[i] : i \in DOMAIN s}
 
 \* stratum 1: every single item (and every "!v") over the full bound set
 \* stratum 2: every list of two items over a (possibly smaller) bound set
 \* stratum 3: lists of two or three items chosen by the seeded index tuples in the parameters
-S1 == IF Params.s1 THEN SetToSeq({<<it>> : it \in Items(ToSetOf(Params.bounds))} \cup NeExprs(ToSetOf(Params.bounds))) ELSE <<>>
-S2 == SetToSeq({<<i, j>> : i \in Items(ToSetOf(Params.bounds2)), j \in Items(ToSetOf(Params.bounds2))})
-ItemSeq == SetToSeq(Items(ToSetOf(Params.bounds)))
-S3 == SetToSeq({[m \in DOMAIN Params.sample[n] |-> ItemSeq[(Params.sample[n][m] % Len(ItemSeq)) + 1]] : n \in DOMAIN Params.sample}
-               \ (ToSetOf(S1) \cup ToSetOf(S2)))
-AllExprs == S1 \o S2 \o S3
-Mine == SelectSeq([i \in DOMAIN AllExprs |-> i], LAMBDA i : i % Params.nshards = Params.shard)
+S1(B) == SetToSeq({<<it>> : it \in Items(B)} \cup NeExprs(B))
+S2(B) == LET I == TLCEval(Items(B)) IN SetToSeq({<<i, j>> : i \in I, j \in I})
+S3(its, sample, seen) == SetToSeq({[m \in DOMAIN sample[n] |-> its[(sample[n][m] % Len(its)) + 1]] : n \in DOMAIN sample} \ seen)
 
-Case(i) == LET e == AllExprs[i]
-               as == SetToSeq(Args(e))
-           IN [id |-> i, valid |-> SpellExpr(e), items |-> e, pos |-> (i % 2) + 1,
-               args |-> [j \in DOMAIN as |-> [v |-> as[j].v, form |-> as[j].form, text |-> ArgText(as[j])]]]
+CaseOf(i, e) ==
+  LET as == SetToSeq(Args(e))
+  IN [id |-> i, valid |-> SpellExpr(e), items |-> e, pos |-> (i % 2) + 1,
+      args |-> [j \in DOMAIN as |-> [v |-> as[j].v, form |-> as[j].form, text |-> ArgText(as[j])]]]
 
+\* (TLCEval: TLC passes operator arguments and LET definitions unevaluated; without it the parameter file is re-read
+\*  at every use of a bound set)
 ASSUME Mode = "gen" =>
-  /\ ndJsonSerialize(IOEnv.OUT, [n \in DOMAIN Mine |-> Case(Mine[n])])
-  /\ PrintT(<<"EXPRS", Len(AllExprs), "MINE", Len(Mine), "S1", Len(S1), "S2", Len(S2), "S3", Len(S3)>>)
+  LET p == TLCEval(Params)
+      b1 == TLCEval(ToSetOf(p.bounds))
+      b2 == TLCEval(ToSetOf(p.bounds2))
+      s1 == TLCEval(IF p.s1 THEN S1(b1) ELSE <<>>)
+      s2 == TLCEval(S2(b2))
+      its == TLCEval(SetToSeq(Items(b1)))
+      seen == TLCEval(ToSetOf(s1) \cup ToSetOf(s2))
+      s3 == TLCEval(S3(its, p.sample, seen))
+      all == TLCEval(s1 \o s2 \o s3)
+      mine == TLCEval(SelectSeq([i \in DOMAIN all |-> i], LAMBDA i : i % p.nshards = p.shard))
+  IN /\ ndJsonSerialize(IOEnv.OUT, [n \in DOMAIN mine |-> CaseOf(mine[n], all[mine[n]])])
+     /\ PrintT(<<"EXPRS", Len(all), "MINE", Len(mine), "S1", Len(s1), "S2", Len(s2), "S3", Len(s3)>>)
 
 (***************************************************************************)
 (* Judge.  Observation of a case: got[j] = 1 iff cppcheck accepted args[j]  *)
@@ -139,8 +147,8 @@ ASSUME Mode = "gen" =>
 (* no invalidFunctionArg at the line of the call).                          *)
 (*     accepted  <=>  In(x, expr)          unless Open                      *)
 (***************************************************************************)
-JCases == IF Mode = "judge" THEN ndJsonDeserialize(IOEnv.CASES) ELSE <<>>
-JObs   == IF Mode = "judge" THEN ndJsonDeserialize(IOEnv.OBS) ELSE <<>>
+JCases == TLCEval(IF Mode = "judge" THEN ndJsonDeserialize(IOEnv.CASES) ELSE <<>>)
+JObs   == TLCEval(IF Mode = "judge" THEN ndJsonDeserialize(IOEnv.OBS) ELSE <<>>)
 
 ItemShape(it) == it.k \o (IF it.a.dec \/ it.b.dec THEN ".d" ELSE ".i")
 \* What kind of case this is - the stable identity of a deviation (one per kind, reported with exact inputs as
@@ -268,8 +276,8 @@ ASSUME Mode = "judgeload" =>
 (* Laws of the definition (checked over all items of the parameter bounds   *)
 (* and all arguments around them) and the manual's examples as facts.       *)
 (***************************************************************************)
-LB == ToSetOf(Params.bounds)
-LItems == Items(LB)
+LB == TLCEval(ToSetOf(Params.bounds))
+LItems == TLCEval(Items(LB))
 LX == UNION {{b - 10, b - 1, b, b + 1, b + 10} : b \in LB}
 N(i) == [v |-> 10 * i, dec |-> FALSE]
 D(t) == [v |-> t, dec |-> TRUE]
